@@ -1,6 +1,6 @@
 """C06: unpacking any image writes only inside the chosen unpack directory."""
 import os, stat, hashlib, traceback, shutil
-from . import core, build, gentree, sqfsimg, views
+from . import core, build, gentree, sqfsimg, views, sysaudit
 from .gentree import Node
 
 PROP = "C06"
@@ -203,6 +203,22 @@ def run_case(arg):
                 else:
                     oc.inc("exit_nonzero")
                 shutil.rmtree(R, ignore_errors=True)
+                if oi == 0:
+                    # the same unpack once more under strace (uninstrumented build): every path given to a modifying system call
+                    # after the chdir into R must stay lexically inside R and must not lead through or follow a symlink made by this run
+                    os.makedirs(R)
+                    Bp = build.build("plain")
+                    rc2, err2, findings, st = sysaudit.audit([Bp["rdsquashfs"], "-u", upath, "-p", R] + opts + [ip], J, R)
+                    oc.inc("audited_runs")
+                    oc.inc("audited_modifying_calls", st["modifying_calls"])
+                    oc.inc("audited_symlinks", st["symlinks_created"])
+                    oc.inc("audited_chdir", st["chdir_seen"])
+                    for rule, detail in findings[:3]:
+                        if rule in ("audit:no-trace", "audit:unknown-dirfd"):
+                            oc.inconclusive.append("%s %s" % (rule, detail))
+                        else:
+                            oc.violate("confinement:%s" % rule, "unpack %s %s: %s" % (upath, opts, detail), {"image.sqfs": img, "stderr.txt": err2})
+                    shutil.rmtree(R, ignore_errors=True)
             oc.sample = {"image": idx, "features": feats, "hostile_names": [repr(v) for v in list(raw.values())[:6]]}
     except Exception:
         oc.inconclusive.append("harness exception: %s" % traceback.format_exc()[-800:])
@@ -214,13 +230,15 @@ def main(tier):
                       "hostile images from the independent writer: directory tables carrying arbitrary name bytes ('.', '..', NUL, '/', absolute, '../x', trailing '/'), duplicate names combining "
                       "symlink+directory, symlink+file, file+file, dir+dir, unsorted entries, symlinks to victims (relative, absolute, '..', '.', '/'), nested hostile names, devices; x option sets "
                       "(-C -O -T -X -Z -q -E -D -S -F -L) x unpack paths; a jail J/{R, outside/..., image} is snapshotted (type, mode, owner, size, mtime_ns, xattrs, sha256 / link target) before and after "
-                      "rdsquashfs -u: everything outside R must be identical; distinct = hostile feature sets")
+                      "rdsquashfs -u: everything outside R must be identical; one run per image is repeated under strace and every path argument of a modifying system call is audited "
+                      "(relative, no '..', not through / not following a symlink created by the run; failed attempts count); distinct = hostile feature sets")
     build.build("asan")
+    build.build("plain")
     n = 150 if tier == "quick" else 3000
     for oc in core.pmap(run_case, [(i, tier) for i in range(n)]):
         rep.add(oc)
     rep.evaluations = rep.counters.get("unpack_runs", 0)
-    rep.required_nonzero = ["unpack_runs", "unchanged_outside", "exit0", "exit_nonzero",
+    rep.required_nonzero = ["unpack_runs", "unchanged_outside", "exit0", "exit_nonzero", "audited_runs", "audited_modifying_calls", "audited_symlinks", "audited_chdir",
                             "feature:symlink-then-dir", "feature:symlink-then-file", "feature:hostile-name"]
     rep.assumptions = ["the jail lives on tmpfs (/dev/shm) or /var/tmp; checks run as root, so permission errors do not mask escapes"]
     return rep.finish()
